@@ -95,6 +95,40 @@ func loadBases() {
 			}
 		}
 	}
+	// the examples carry no JSON numbers other than indexes: add a variant of
+	// one invoice whose supplier address has coordinates (non-integer, negative)
+	for _, d := range corpus.Invoices() {
+		tree, err := jsontree.Decode(d.JSON)
+		if err != nil {
+			continue
+		}
+		if _, ok := jsontree.Get(tree, "/supplier/addresses/0"); !ok {
+			continue
+		}
+		coords, _ := jsontree.Decode([]byte(`{"lat":40.4168,"lon":-3.70379}`))
+		t2, err := jsontree.Set(tree, "/supplier/addresses/0/coords", coords)
+		if err != nil {
+			continue
+		}
+		env, err := corpus.EnvelopeOf(jsontree.Encode(t2), false)
+		if err != nil || env.Validate() != nil {
+			continue
+		}
+		text, _ := json.Marshal(env)
+		e2 := new(gobl.Envelope)
+		if json.Unmarshal(text, e2) != nil {
+			continue
+		}
+		tr, err1 := jsontree.Decode(text)
+		dt, err2 := docTree(e2)
+		if err1 != nil || err2 != nil {
+			continue
+		}
+		b := &base{schema: d.ShortSch, path: d.Path + "#coords", text: text, tree: tr, doc: dt, dig: e2.Head.Digest.Value}
+		bases = append(bases, b)
+		baseByPath[b.path] = b
+		break
+	}
 	if len(bases) == 0 {
 		panic("c08: no valid example envelopes")
 	}
@@ -157,7 +191,15 @@ func alter(v any) []string {
 		}
 		return out
 	case json.Number:
-		return []string{string(t) + "1"}
+		n := string(t)
+		out := []string{n + "1"}
+		// sign flip
+		if strings.HasPrefix(n, "-") {
+			out = append(out, n[1:])
+		} else if n != "0" {
+			out = append(out, "-"+n)
+		}
+		return out
 	case bool:
 		if t {
 			return []string{"false"}
@@ -417,7 +459,7 @@ func quickBases() []*base {
 	// a spread of schemas / regimes: every 7th example plus all non-invoice documents
 	var out []*base
 	for i, b := range bases {
-		if i%7 == 0 || !strings.Contains(b.path, "invoice") || strings.HasSuffix(b.path, "es/invoice-es-es.yaml#signed") {
+		if i%7 == 0 || !strings.Contains(b.path, "invoice") || strings.HasSuffix(b.path, "es/invoice-es-es.yaml#signed") || strings.HasSuffix(b.path, "#coords") {
 			out = append(out, b)
 		}
 	}
